@@ -23,9 +23,10 @@ def translate(ctx):
     """Gen/Guards.v and Gen/SpectralGen.v (the derivative operator of _spectral.py, tied to the layout by Tie/SpectralTie.v and the
     theorem C05_code_derivative_operator_is_model); both are always attempted"""
     errors = []
-    for name, tr in (("guards", tr_guards), ("spectral", tr_spectral), ("linops", tr_linops)):
+    for name, fn in (("guards", tr_guards.run), ("spectral", tr_spectral.run), ("linops", tr_linops.run),
+                     ("poisson", lambda: tr_linops.run_operators(require=("poisson",)))):
         try:
-            tr.run()
+            fn()
         except Exception as e:
             errors.append(f"{name}: {type(e).__name__}: {e}")
     if errors:
